@@ -580,6 +580,11 @@ def render(e):
         return render_path(e["path"])
     if k == "Expr::Lit":
         return render_lit(e["lit"])
+    if k in ("Expr::Macro", "Expr::Call"):
+        # one spelling for every way of building an identifier from a name pattern (see ident_ctor)
+        d = ident_ctor(e)
+        if d is not None:
+            return 'format_ident!(' + json.dumps(d["pattern"]) + "".join("," + a.replace(" ", "") for a in d["args"]) + (",span=" + d["span"].replace(" ", "") if d["span"] else "") + ")"
     if k == "Expr::MethodCall":
         tf = ""
         if e.get("turbofish"):
@@ -1228,3 +1233,94 @@ def string_table(fn, files=None):
     for st, _ in find(fn.block, ("Stmt::Item",)):
         pass
     return out or None
+
+
+
+def ident_ctor(e):
+    """An expression that builds an identifier from a name pattern, whichever way it is spelled:
+    `format_ident!("p_{}", a, span = s)`, `format_ident!("p_{a}")`, `Ident::new(&format!("p_{a}"), s)`,
+    `Ident::new("lit", Span::call_site())` -> {"pattern": "p_{}", "args": [rendered args in hole order], "span": rendered
+    span expression or None (call site), "via": "format_ident" | "Ident::new", "inline": [names captured inline]}.
+    (`format_ident!` strips `r#` from positional identifier arguments, the other spellings do not: RAW-ID looks at
+    that; here only the name pattern matters.) None for anything else."""
+    import re as _re
+
+    e = peel(e)
+    k = kind(e)
+
+    def split(toks):
+        parts, cur = [], []
+        for t in toks:
+            if kind(t) == "Punct" and punct_char(t) == ",":
+                parts.append(cur)
+                cur = []
+            else:
+                cur.append(t)
+        parts.append(cur)
+        return [p for p in parts if p]
+
+    def from_tokens(toks, via, span):
+        parts = split(toks)
+        if not parts or kind(parts[0][0]) != "Literal" or not isinstance(parts[0][0].get("lit"), dict) or parts[0][0]["lit"].get("kind") != "str":
+            return None
+        val = parts[0][0]["lit"].get("value") or ""
+        pos, named = [], {}
+        for p in parts[1:]:
+            if len(p) >= 3 and kind(p[0]) == "Ident" and kind(p[1]) == "Punct" and punct_char(p[1]) == "=":
+                named[p[0]["sym"]] = tokens_compact(p[2:])
+            else:
+                pos.append(tokens_compact(p))
+        if "span" in named:
+            span = named.pop("span")
+        args, inline = [], []
+        it = iter(pos)
+
+        def repl(m):
+            name = m.group(1)
+            if name == "":
+                args.append(next(it, "?"))
+            elif name in named:
+                args.append(named[name])
+            else:
+                args.append(name)
+                inline.append(name)
+            return "{}"
+
+        pat = _re.sub(r"(?<!\{)\{([A-Za-z_0-9]*)(?::[^{}]*)?\}(?!\})", repl, val)
+        return {"pattern": pat, "args": args, "span": span, "via": via, "inline": inline}
+
+    if k == "Expr::Macro" and path_last(e["mac"]["path"]) == "format_ident":
+        return from_tokens(e["mac"]["tokens"], "format_ident", None)
+    if k == "Expr::Call" and (path_str(e["func"]) or "").split("::")[-2:] == ["Ident", "new"] and len(e["args"]) == 2:
+        a0, a1 = peel(e["args"][0]), e["args"][1]
+        sp = render(a1)
+        sp = None if sp.replace("proc_macro2::", "").replace(" ", "") == "Span::call_site()" else sp
+        if kind(a0) == "Expr::Macro" and path_last(a0["mac"]["path"]) == "format":
+            return from_tokens(a0["mac"]["tokens"], "Ident::new", sp)
+        if kind(a0) == "Expr::Lit" and kind(a0["lit"]) == "Lit::Str":
+            return {"pattern": a0["lit"]["token"]["value"], "args": [], "span": sp, "via": "Ident::new", "inline": []}
+        if kind(a0) == "Expr::Path" and "::" not in (path_str(a0) or "::"):
+            return {"pattern": "{}", "args": [path_str(a0)], "span": sp, "via": "Ident::new", "inline": [path_str(a0)]}
+    return None
+
+
+def ident_ctors(node):
+    """every identifier-building expression below `node`: [(expr node, description)]"""
+    out = []
+    for x, _ in walk(node):
+        if kind(x) in ("Expr::Macro", "Expr::Call"):
+            d = ident_ctor(x)
+            if d is not None:
+                out.append((x, d))
+    return out
+
+
+def referenced_consts(fn):
+    """constants / statics of the function's file (any module or impl, or local to the function) that it names:
+    {name: initialiser expression}. A literal table moved into a `const` is still part of what the function says."""
+    names = {path_str(p).split("::")[-1] for p, _ in find(fn.block, "Expr::Path") if path_str(p)}
+    out = {}
+    for x, _ in walk(fn.file.ast):
+        if kind(x) in ("Item::Const", "ImplItem::Const", "Item::Static") and x.get("expr") is not None and x["ident"]["sym"] in names:
+            out[x["ident"]["sym"]] = x["expr"]
+    return out
